@@ -12,29 +12,47 @@ else`, `return`), in the `Except Err` monad when the function reads dictionaries
 otherwise; Python `==` becomes Lean's Boolean `==`, `and/or/not` become `&& || !`.  Reading the generated file next to
 the Python is the intended review of this translator.
 
-Subset (everything else raises `Unsupported`, nothing is skipped silently):
-  statements   docstring, `pass`, `x = e`, `d["k"] = e` (d a local dictionary created by a literal in this function),
-               `if/elif/else`, `return e`; every path must end in a `return`
-  expressions  str / bool / None constants, tuples, `{"k": "v", ...}` literals, names of parameters and locals,
-               `d["k"]` (KeyError when missing), `==`, `!=`, `is None`, `is not None`, `in` / `not in` on literal
-               lists/tuples/sets of strings (or a module level constant holding one), `and`, `or`, `not`,
-               `a if c else b`
+Subset (everything else raises `Unsupported`, nothing is skipped silently; the full table with what is refused on
+purpose is in design.d/C19.md, every construct is run through Python and Lean by harness/pygen_selftest.py):
+  statements   docstring, `pass`, `x = e` (first at the top level, or in every branch of an `if`), `x += e` / `-=` / `|=`,
+               `d["k"] = e` (d a local dictionary created by a literal in this function), `if/elif/else`, `return e`
+               (every path must end in a `return`, except in functions declared `unit`), `raise Cls("…")` -> `throw`,
+               `with <declared context manager>:` (body in place), calls of declared log functions (dropped), calls of
+               declared actions, `a, b = <opaque>` (names for atoms), and four shapes of `for`:
+                 over a literal list (unrolled) | `if c: return e` (List.find?) |
+                 flag with `break` and `else: flag = False` (List.any) | updates of one local (List.foldl)
+  expressions  str / bool / None / int constants, tuples, `{"k": "v", ...}` and `[…]` literals, names of parameters and
+               locals, `d["k"]` (KeyError when missing), `==`, `!=`, `is None`, `is not None`, `< <= > >=` and `+ - *`
+               on integers, `max(a, b)`, `min(a, b)`, `len(list)`, `in` / `not in` on literal lists/tuples/sets of
+               strings (or a module level constant holding one), on list values and between strings (substring),
+               `s.startswith(p)`, `s.lower()`, `s.split()`, `a + b` on strings, `and`, `or`, `not`, `a if c else b`,
+               `a or b` on lists, truthiness of lists and sets, `[e for x in l if c]`, `any(…)` / `all(…)` over a
+               generator, `{*l}` with `-`, `&`, `|` of which only emptiness (`len(S) > 0`, truthiness) is observable
   atoms        expressions the caller gives a meaning to (`spec.atoms`: normalised Python source -> Lean term, type),
                e.g.  `self.params.get('nets_spawner')` -> `nets_spawner : Option String`,
-               `'swarm' in self.params['pool_scope']` -> `swarm_in_scope : Bool`, `worker` -> `worker : Bool` (truthiness)
+               `'swarm' in self.params['pool_scope']` -> `swarm_in_scope : Bool`, `worker` -> `worker : Bool` (truthiness);
+               `spec.calls`: calls whose arguments are translated (`get_numeric('max_tries', _1)`), possibly monadic
+               (kinds raises / reads / action); `spec.fields`: reads on elements of lists of an opaque type
   blocks       whole branch bodies the caller pins verbatim (`spec.blocks`: Python source -> Lean term): a branch body
                whose AST equals the pinned one is translated to `return <term>`; used to abstract the *bodies* of a
-               selection (is_started: the three ways of counting) while the *selection* is translated
+               selection (is_started: the three ways of counting) while the *selection* is translated;
+               `spec.assign_blocks`: the same for a body that stands for `x := <term>`
 
 What is trusted (to be listed in the trusted base of a property that uses this module):
-  * this translator (about 400 lines): that the `do` block it prints means what the Python means on the subset above,
+  * this translator (about 1100 lines): that the `do` block it prints means what the Python means on the subset above,
     in particular: Lean hoists `(<- d.getItem k)` to the front of the enclosing statement in left-to-right order, which
-    is Python's evaluation order because effects (dictionary reads) are refused in short-circuited positions;
-    dictionaries are values in Lean, which is Python's meaning because aliasing a dictionary is refused;
-  * the atom table of each use: every atom expression is pure, total and keeps its value during the call, and the Lean
-    term given for it is what the hand model uses for that quantity; a Bool atom stands for the truthiness of the
-    expression;
-  * pinned blocks: have no effect on the selection (they are only reached as whole branch bodies and they return).
+    is Python's evaluation order because effects (dictionary reads, atoms that may raise) are refused in short-circuited
+    positions and inside loop bodies / comprehensions; dictionaries are values in Lean, which is Python's meaning
+    because aliasing a dictionary is refused; a set is represented by a list of which only emptiness is observed;
+    loops are combinators whose element functions are pure; a local declared in front of an `if` with a default value
+    is assigned on every path before it is read;
+  * the atom table of each use: every atom expression is pure, total and keeps its value during the call (kinds
+    `raises` / `reads` / `action`: it is the stated action of the function's monad), and the Lean term given for it is
+    what the hand model uses for that quantity; a Bool atom stands for the truthiness of the expression; the prelude
+    lines of a spec are part of its atom table;
+  * pinned blocks: have no effect on the selection (they are only reached as whole branch bodies and they return, or
+    have the declared net effect on one local);
+  * dropped statements (declared log calls, locals only read by log / exception messages): have no effect.
 """
 import ast
 import os
@@ -170,11 +188,13 @@ class Spec:
                 any other text = the monad itself, e.g. "StateT FS (Except Err)"
     prelude     Lean lines printed before the definition (helper definitions the atom table refers to; trusted with it)
     local_types {name: type} for locals whose first value is the empty list `[]`
+    type_defaults {opaque Lean type: a value of it}: values of these types may be compared with `==` (the type has a lawful
+                `BEq`) and locals of these types may be first assigned inside the branches of an `if`
     """
 
     def __init__(self, lean_name, binders, params, ret, atoms=None, blocks=None, monad="pure", doc="", calls=None,
                  assign_blocks=None, raises=None, ignored_calls=(), transparent_with=(), fields=None, prims=None,
-                 prelude=(), local_types=None):
+                 prelude=(), local_types=None, type_defaults=None):
         self.lean_name = lean_name
         self.binders = list(binders)
         self.params = dict(params)
@@ -190,6 +210,7 @@ class Spec:
         self.prims = dict(DEFAULT_PRIMS, **(prims or {}))
         self.prelude = list(prelude)
         self.local_types = dict(local_types or {})
+        self.type_defaults = dict(type_defaults or {})
         self.monad = monad
         self.doc = doc
 
@@ -498,7 +519,7 @@ class _Fn:
         raise Unsupported(f"{self.fn.name}:{node.lineno}: attribute `{ast.unparse(node)}` of a {ty}")
 
     def _eq(self, a, ta, b, tb, where):
-        if ta == tb and ta in ("str", "optstr", "bool", "int"):
+        if ta == tb and (ta in ("str", "optstr", "bool", "int") or ta in self.spec.type_defaults):
             return f"({a} == {b})"
         if (ta, tb) == ("optstr", "str"):
             return f"({a} == some {b})"
@@ -667,7 +688,16 @@ class _Fn:
         self.uses["calls"].add(key)
         tmpl, ty, kind = hit[0], hit[1], hit[2]
         want = hit[3] if len(hit) > 3 else None
-        args = [self.expr(a, eff) for a in holes]
+        args = []
+        for i, a in enumerate(holes):
+            if want is not None and i < len(want) and want[i] == "_":
+                # an argument the Lean term does not mention: it must be a parameter passed on as it is
+                if not (isinstance(a, ast.Name) and a.id in self.spec.params):
+                    raise Unsupported(f"{self.fn.name}:{node.lineno}: `{ast.unparse(node)}`: argument {i + 1} must be a "
+                                      "parameter passed on unchanged")
+                args.append(("", "_"))
+            else:
+                args.append(self.expr(a, eff))
         if want is not None and [a[1] for a in args] != list(want):
             raise Unsupported(f"{self.fn.name}:{node.lineno}: `{ast.unparse(node)}`: argument types {[a[1] for a in args]}, "
                               f"declared {list(want)}")
@@ -1038,9 +1068,11 @@ class _Fn:
             if ty is None:
                 self.lines[idx] = ""
                 continue
-            if ty not in LEAN_DEFAULTS:
+            dflt = LEAN_DEFAULTS.get(ty) if not isinstance(ty, tuple) else None
+            dflt = dflt or (self.spec.type_defaults.get(ty) if not isinstance(ty, tuple) else None)
+            if dflt is None:
                 raise Unsupported(f"{self.fn.name}:{s.lineno}: {name!r} (a {ty}) is first assigned inside the branches of an if")
-            self.lines[idx] = "  " * (d + 1) + f"let mut {lean_ident(name)} : {lean_type(ty)} := {LEAN_DEFAULTS[ty]}"
+            self.lines[idx] = "  " * (d + 1) + f"let mut {lean_ident(name)} : {lean_type(ty)} := {dflt}"
         if mine:
             self.lines = [l for l in self.lines if l != ""]
             # indices of outer pending declarations are in front of ours: unaffected
@@ -1485,13 +1517,26 @@ HARNESS_SHAPE_SPEC = Spec(
     doc="`shape_of` of harness/travlib.py: the `shape=` field of the static node lines the harness exports to drv_trav")
 
 
+OCCUPIED_SPEC = Spec(
+    "genIsOccupied",
+    binders=[("mct", "Option Int"), ("maxTries", "Option Int"), ("started", "Int → Bool")],
+    params={"worker": None}, ret="bool", monad="pure",
+    calls={"self.params.get_numeric('max_concurrent_tries', _1)": ("(mct.getD {1})", "int", "pure", ["int"]),
+           "self.params.get_numeric('max_tries', _1)": ("(maxTries.getD {1})", "int", "pure", ["int"]),
+           "self.is_started(_1, _2)": ("(started {2})", "bool", "pure", ["_", "int"])},
+    doc="`TestNode.is_occupied` of avocado_i2n/cartgraph/node.py: the threshold computation.  `mct` / `maxTries` = the "
+        "integer value of the parameters `max_concurrent_tries` / `max_tries` of this copy (none = not set), "
+        "`started t` = `self.is_started(worker, t)`")
+
+
 def scope_source(node_path=None, travlib_path=None):
     node_path = node_path or _src("PYGEN_NODE_SRC", "avocado_i2n/cartgraph/node.py")
     travlib_path = travlib_path or os.environ.get("PYGEN_TRAVLIB_SRC") or \
         os.path.join(os.path.dirname(os.path.abspath(__file__)), "travlib.py")
     defs = [generate(node_path, "TestNode.is_started", _scope_spec("started")),
             generate(node_path, "TestNode.is_finished", _scope_spec("finished")),
-            generate(travlib_path, "shape_of", HARNESS_SHAPE_SPEC)]
+            generate(travlib_path, "shape_of", HARNESS_SHAPE_SPEC),
+            generate(node_path, "TestNode.is_occupied", OCCUPIED_SPEC)]
     return render_file("harness/pygen.py:extract_scope (called by harness/props/c04.py:extract) from "
                        "avocado_i2n/cartgraph/node.py and harness/travlib.py", [], "I2N.Extracted.GenScope", [], defs)
 
@@ -1514,11 +1559,28 @@ POOL_SPEC = Spec(
     doc="`SourcedStateBackend.get_source_scope` of avocado_i2n/states/pool.py, translated branch by branch")
 
 
+_SOURCE_PARAMS = "(params.object_params(source.split(':')[0]) if source.split(':')[0] else params)"
+
+PROXIMITY_SPEC = Spec(
+    "genProximity",
+    binders=[("e", "Env"), ("s", "Src")],
+    params={"source": None}, ret="int", monad="pure",
+    atoms={"params['nets_gateway']": ("e.gateway", "str"),
+           _SOURCE_PARAMS + "['nets_gateway']": ("(e.srcGateway s)", "str"),
+           "params['nets_host']": ("e.host", "str"),
+           _SOURCE_PARAMS + "['nets_host']": ("(e.srcHost s)", "str"),
+           "params['swarm_pool']": ("e.swarmPool", "str"),
+           "source.split(':')[1]": ("s.path", "str")},
+    doc="`proximity`, the sort key inside `SourcedStateBackend.get_sources` of avocado_i2n/states/pool.py (`source` = "
+        "`s.net + ':' + s.path`; `source_params` = the parameters of the source's net, or the own ones)")
+
+
 def pool_source(path=None):
     path = path or _src("PYGEN_POOL_SRC", "avocado_i2n/states/pool.py")
-    d = generate(path, "SourcedStateBackend.get_source_scope", POOL_SPEC)
+    defs = [generate(path, "SourcedStateBackend.get_source_scope", POOL_SPEC),
+            generate(path, "SourcedStateBackend.get_sources.proximity", PROXIMITY_SPEC)]
     return render_file("harness/pygen.py:extract_pool (called by harness/props/c13.py:extract) from "
-                       "avocado_i2n/states/pool.py", ["I2N.Model.Pool"], "I2N.Extracted.GenPool", ["I2N.Pool"], [d])
+                       "avocado_i2n/states/pool.py", ["I2N.Model.Pool"], "I2N.Extracted.GenPool", ["I2N.Pool"], defs)
 
 
 def extract_pool(ctx=None):
@@ -1613,7 +1675,90 @@ def extract_rules(ctx=None):
     return write_if_changed(_lean_path("GenRules.lean"), rules_source())
 
 
-SOURCES = {"tunnel": tunnel_source, "scope": scope_source, "pool": pool_source, "rules": rules_source}
+# ---- TransferOps: compare-then-copy decisions (C14) ------------------------------------------------------------------
+
+TRANSFER_PRELUDE = [
+    "/-- the state of the translated functions: the file system; `os` / `shutil` calls either read it or replace it -/",
+    "abbrev M := StateT FS (Except Err)",
+    "def readFS {α : Type} (f : FS → α) : M α := fun fs => .ok (f fs, fs)",
+    "def stepFS (f : FS → Except Err FS) : M Unit := fun fs => (f fs).map (fun fs' => ((), fs'))",
+    "",
+    "/-- `crypto.hash_file(path, size, \"md5\")` of an existing file: what the digest depends on (md5 is assumed collision",
+    "free on it, as in `I2N.Transfer.digest`); `noHash` is the `\"\"` the code uses for a missing file -/",
+    "def hashFile (size : Int) (fs : FS) (p : Path) : Option Data := some (((read fs p).getD []).take size.toNat)",
+    "def noHash : Option Data := none",
+]
+
+_T_PARAMS = {"cache_path": ("cache", "str"), "pool_path": ("pool", "str"), "params": None}
+_T_LOGS = {"logging.info", "logging.warning", "logging.debug", "os.makedirs"}
+_T_READS = {"os.path.islink(_1)": ("readFS (fun fs => islink fs {1})", "bool", "reads", ["str"]),
+            "os.path.exists(_1)": ("readFS (fun fs => pexists fs {1})", "bool", "reads", ["str"])}
+_T_ACTIONS = {"shutil.copy(_1, _2)": ("stepFS (fun fs => copy fs {1} {2})", "unit", "action", ["str", "str"]),
+              "os.unlink(_1)": ("stepFS (fun fs => unlink fs {1})", "unit", "action", ["str"]),
+              "os.symlink(_1, _2)": ("stepFS (fun fs => symlink fs {1} {2})", "unit", "action", ["str", "str"])}
+_T_BINDERS = [("cache", "Path"), ("pool", "Path")]
+
+
+def _transfer_specs():
+    M = "M"
+    compare_local = Spec(
+        "genCompareLocal", [("fs", "FS")] + _T_BINDERS, _T_PARAMS, ret="bool", monad="pure",
+        calls={"os.path.exists(_1)": ("(pexists fs {1})", "bool", "pure", ["str"]),
+               "crypto.hash_file(_1, _2, 'md5')": ("(hashFile {2} fs {1})", "Option Data", "pure", ["str", "int"])},
+        atoms={"''": ("noHash", "Option Data")},
+        type_defaults={"Option Data": "none"}, prelude=TRANSFER_PRELUDE,
+        doc="`TransferOps.compare_local` of avocado_i2n/states/pool.py on the file system `fs`")
+    compare_link = Spec(
+        "genCompareLink", [("fs", "FS")] + _T_BINDERS, _T_PARAMS, ret="bool", monad="pure",
+        calls={"os.path.islink(_1)": ("(islink fs {1})", "bool", "pure", ["str"]),
+               "os.path.realpath(_1)": ("(resolve fs {1})", "str", "pure", ["str"]),
+               "TransferOps.compare_local(_1, _2, _3)": ("(genCompareLocal fs {1} {2})", "bool", "pure", ["str", "str", "_"])},
+        doc="`TransferOps.compare_link` (`os.path.realpath` follows one level: flat file systems, see I2N.Transfer)")
+    cmp_local = {"TransferOps.compare_local(_1, _2, _3)":
+                 ("readFS (fun fs => genCompareLocal fs {1} {2})", "bool", "reads", ["str", "str", "_"])}
+    cmp_link = {"TransferOps.compare_link(_1, _2, _3)":
+                ("readFS (fun fs => genCompareLink fs {1} {2})", "bool", "reads", ["str", "str", "_"])}
+    download_local = Spec(
+        "genDownloadLocal", _T_BINDERS, _T_PARAMS, ret="unit", monad=M, calls=dict(cmp_local, **_T_ACTIONS),
+        ignored_calls=_T_LOGS, transparent_with={"image_lock"},
+        doc="`TransferOps.download_local`: what one undisturbed process does inside `image_lock` (the lock protocol is "
+            "modelled separately, directories are not modelled)")
+    upload_local = Spec(
+        "genUploadLocal", _T_BINDERS, _T_PARAMS, ret="unit", monad=M, calls=dict(cmp_local, **_T_ACTIONS),
+        ignored_calls=_T_LOGS, transparent_with={"image_lock"}, doc="`TransferOps.upload_local`")
+    delete_local = Spec(
+        "genDeleteLocal", [("pool", "Path")], {"pool_path": ("pool", "str"), "params": None}, ret="unit", monad=M,
+        calls=dict(_T_ACTIONS), ignored_calls=_T_LOGS, transparent_with={"image_lock"}, doc="`TransferOps.delete_local`")
+    download_link = Spec(
+        "genDownloadLink", _T_BINDERS, _T_PARAMS, ret="unit", monad=M,
+        calls=dict(cmp_link, **_T_READS, **_T_ACTIONS), ignored_calls=_T_LOGS, transparent_with={"image_lock"},
+        raises=[("RuntimeError", "Cannot link to {}, {} data exists", "Err.runtimeError")],
+        doc="`TransferOps.download_link`")
+    upload_link = Spec(
+        "genUploadLink", _T_BINDERS, _T_PARAMS, ret="unit", monad=M,
+        calls=dict(_T_READS, **{"TransferOps.upload_local(_1, _2, _3)":
+                                ("genUploadLocal {1} {2}", "unit", "action", ["str", "str", "_"])}),
+        raises=[("ValueError", "Cannot upload a symlink to its destination", "Err.valueError")],
+        doc="`TransferOps.upload_link`")
+    return [("compare_local", compare_local), ("compare_link", compare_link), ("download_local", download_local),
+            ("upload_local", upload_local), ("delete_local", delete_local), ("download_link", download_link),
+            ("upload_link", upload_link)]
+
+
+def transfer_source(path=None):
+    path = path or _src("PYGEN_POOL_SRC", "avocado_i2n/states/pool.py")
+    defs = [generate(path, "TransferOps." + name, spec) for name, spec in _transfer_specs()]
+    return render_file("harness/pygen.py:extract_transfer (called by harness/props/c14.py:extract) from "
+                       "avocado_i2n/states/pool.py", ["I2N.Model.Transfer"], "I2N.Extracted.GenTransfer",
+                       ["I2N.Transfer"], defs)
+
+
+def extract_transfer(ctx=None):
+    return write_if_changed(_lean_path("GenTransfer.lean"), transfer_source())
+
+
+SOURCES = {"tunnel": tunnel_source, "scope": scope_source, "pool": pool_source, "rules": rules_source,
+           "transfer": transfer_source}
 
 if __name__ == "__main__":
     import sys
